@@ -68,7 +68,7 @@ Proof. unfold ntracks. intros ->. reflexivity. Qed.
 Ltac crush :=
   simpl in *; intros;
   solve [ auto | congruence | tauto | intuition congruence | intuition (try congruence; eauto)
-        | timeout 20 firstorder congruence ].
+        ].
 
 (* the other goroutines' view survives *)
 Lemma frame : forall g i ti g' j tj,
@@ -139,7 +139,7 @@ Ltac solve_gch :=
         | solve [apply gch_ready; simpl; auto] ]
 with destruct_holds_in_goal := idtac.
 
-Definition ghost_after (t t' : thread) : abs :=
+Definition ghost_after (t t' : thread) : ghost :=
   match t_ops t, t_res t' with
   | o :: _, None => learn (t_holds t) (t_abs t) o
   | _, _ => a_set (t_abs t) false false
@@ -159,6 +159,23 @@ Proof. unfold tok_is. destruct (a_tok a) as [[]|]; destruct s; simpl; congruence
 Lemma kt_is_true a n : kt_is a n = true -> a_kt a = Some n.
 Proof. unfold kt_is. destruct (a_kt a); try discriminate. intros H. apply Nat.eqb_eq in H. congruence. Qed.
 
+Lemma st_eqb_eq a b : st_eqb a b = true <-> a = b.
+Proof. destruct a, b; simpl; split; congruence. Qed.
+Lemma st_eqb_neq a b : st_eqb a b = false <-> a <> b.
+Proof. destruct a, b; simpl; split; congruence. Qed.
+Lemma pick3_0 ch a b c : pick3 ch a b c = Some 0 -> a = true.
+Proof. destruct ch as [|[|[|ch]]], a, b, c; simpl; congruence. Qed.
+Lemma pick3_1 ch a b c : pick3 ch a b c = Some 1 -> b = true.
+Proof. destruct ch as [|[|[|ch]]], a, b, c; simpl; congruence. Qed.
+
+Ltac break_exec Hres :=
+  repeat (lazymatch goal with
+          | |- match ?E with _ => _ end =>
+              match E with
+              | context [match ?x with _ => _ end] => destruct x eqn:?
+              end
+          end; simpl; rewrite ?Hres; simpl).
+
 Lemma exec_sound : forall c g i t ch,
   thread_ok g i t -> ginv g -> t_alt t = None -> t_on t = true -> t_res t = None -> exec_post c g i t ch.
 Proof.
@@ -176,13 +193,29 @@ Proof.
               | H : tok_is _ _ = true |- _ => apply tok_is_true in H
               | H : kt_is _ _ = true |- _ => apply kt_is_true in H
               | H : negb _ = true |- _ => apply negb_true_iff in H
+              | H : st_eqb _ _ = false |- _ => apply st_eqb_neq in H
               end.
-  all: unfold ret; simpl; rewrite ?Hres, ?Eh; simpl.
-  all: repeat (match goal with
-               | |- context [match ?x with _ => _ end] => destruct x eqn:?
-               end; simpl; rewrite ?Hres, ?Eh; simpl).
-  all: try solve [exfalso; crush].
+  all: try (assert (Hlk : g_lock g = LThread i) by (apply HL; reflexivity)).
+  all: try match goal with st : sstate |- _ => destruct st end.
+  all: unfold ret; simpl; rewrite ?Hres, ?Eh, ?Hlk; simpl.
+  all: break_exec Hres.
+  all: rewrite ?Hres, ?Eh; simpl.
+  all: repeat match goal with
+              | H : st_eqb _ _ = true |- _ => apply st_eqb_eq in H
+              | H : st_eqb _ _ = false |- _ => apply st_eqb_neq in H
+              | H : pick3 _ _ _ _ = Some 0 |- _ => apply pick3_0 in H
+              | H : pick3 _ _ _ _ = Some 1 |- _ => apply pick3_1 in H
+              | H : (_ <? _) = false |- _ => apply Nat.ltb_ge in H
+              | H : (_ <? _) = true |- _ => apply Nat.ltb_lt in H
+              | H : (_ <=? _) = false |- _ => apply Nat.leb_gt in H
+              | H : (_ <=? _) = true |- _ => apply Nat.leb_le in H
+              end.
   all: try reflexivity.
-  all: try (split; [ solve_gch | split; [ constructor; simpl; rewrite ?Eh; try assumption; try crush | simpl; auto ] ]).
-  Show.
-Abort.
+  all: try solve [exfalso; crush].
+  all: try solve [exfalso; match goal with H : a_kt _ = Some _ |- _ => apply HKt in H; lia end].
+  all: try (split; [ solve_gch | split; [ constructor; simpl; try assumption; try crush | simpl; auto ] ]).
+  - intros n0 E. inversion E; subst.
+    match goal with H : (_ <=? _) = false |- _ => apply Nat.leb_gt in H; lia end.
+  - intros n0 Hn. apply HKt in Hn. unfold ntracks in Hn. rewrite HTr in Hn by assumption. lia.
+Qed.
+
